@@ -1,7 +1,7 @@
 (* C17 model driver.  One case per line:
-   kB temp tol tau damping dt tsf lower upper rlo rup width per P ctr same sub restart rx rv it0 n {step x fb fba rnd running}*n
+   kB temp tol tau damping dt tsf lower upper rlo rup width per P ctr same sub restart rx rv xsaved it0 n {step x fb fba rnd running}*n
    EVERY engine step is given (relative step numbers; it0 = absolute step of relative step 0); the model decides which are awake.
-   Output: "k m gamma sigma" then for every step " | err x_rep v_rep epot ekin ft fr f energy x_ext v_ext saved_x saved_v awake". *)
+   Output: "k m gamma sigma refused" (refused: the restart consistency check rejects the first input) then for every step " | err x_rep v_rep epot ekin ft fr f energy x_ext v_ext saved_x saved_v awake". *)
 open Model
 open X_fops
 let pi = 3.14159265358979323846
@@ -21,7 +21,7 @@ let () =
         let rlo = nb () in let rup = nb () in let width = nf () in
         let per = nb () in let pp = nf () in let ctr = nf () in
         let same = nb () in let sub = nb () in
-        let restart = nb () in let rx = nf () in let rv = nf () in
+        let restart = nb () in let rx = nf () in let rv = nf () in let xsaved = nf () in
         let it0 = ni () in
         let n = ni () in
         let c = { c_kB = kB; c_temp = temp; c_tol = tol; c_tau = tau; c_damping = damping; c_dt = dt;
@@ -35,7 +35,8 @@ let () =
           { i_step = z_of_int st; i_x = x; i_fb = fb; i_fba = fba; i_rnd = rnd; i_running = run }) in
         let tr = mtrace fops c prm (z_of_int it0) s0 ins in
         let b = Buffer.create 1024 in
-        Buffer.add_string b (Printf.sprintf "%s %s %s %s" (hex prm.p_k) (hex prm.p_m) (hex prm.p_gamma) (hex prm.p_sigma));
+        let refused = match ins with i0 :: _ -> restart && restart_refused fops c xsaved true i0 | [] -> false in
+        Buffer.add_string b (Printf.sprintf "%s %s %s %s %d" (hex prm.p_k) (hex prm.p_m) (hex prm.p_gamma) (hex prm.p_sigma) (if refused then 1 else 0));
         List.iter2 (fun i s ->
           let xe = match s.s_x_ext with Some x -> x | None -> nan in
           let (sx, sv) = saved_xv fops s i.i_step in
